@@ -176,33 +176,33 @@ func cloneTree(n *node) *node {
 
 // replacement elements used by the "replace" mutation
 var replacements = [][]byte{
-	{0x05, 0x00},                   // NULL
-	{0x02, 0x01, 0x00},             // INTEGER 0
-	{0x02, 0x01, 0xff},             // INTEGER -1
-	{0x02, 0x01, 0x01},             // INTEGER 1
-	{0x02, 0x00},                   // empty INTEGER
-	{0x02, 0x02, 0x00, 0x01},       // non-minimal INTEGER
-	append([]byte{0x02, 0x21}, ff(33)...), // 33-byte negative
+	{0x05, 0x00},                                // NULL
+	{0x02, 0x01, 0x00},                          // INTEGER 0
+	{0x02, 0x01, 0xff},                          // INTEGER -1
+	{0x02, 0x01, 0x01},                          // INTEGER 1
+	{0x02, 0x00},                                // empty INTEGER
+	{0x02, 0x02, 0x00, 0x01},                    // non-minimal INTEGER
+	append([]byte{0x02, 0x21}, ff(33)...),       // 33-byte negative
 	append([]byte{0x02, 0x21, 0x00}, ff(32)...), // 2^256-1
 	append([]byte{0x02, 0x41, 0x00}, ff(64)...), // 64-byte integer
-	{0x30, 0x00},                   // empty SEQUENCE
-	{0x31, 0x00},                   // empty SET
-	{0x04, 0x00},                   // empty OCTET STRING
-	{0x04, 0x01, 0x00},             // 1-byte OCTET STRING
-	{0x03, 0x00},                   // BIT STRING without the unused-bits octet
-	{0x03, 0x01, 0x00},             // empty BIT STRING
-	{0x03, 0x01, 0x07},             // BIT STRING unused=7, no data
-	{0x03, 0x02, 0x08, 0x00},       // invalid unused bits
-	{0x03, 0x02, 0x00, 0x04},       // 1-byte bit string 04
-	{0x06, 0x00},                   // empty OID
-	{0x06, 0x01, 0x80},             // bad OID
-	{0x06, 0x03, 0x2a, 0x03, 0x04}, // OID 1.2.3.4
-	{0x0c, 0x00},                   // empty UTF8String
-	{0x17, 0x00},                   // empty UTCTime
-	{0x01, 0x01, 0xff},             // BOOLEAN true
-	{0xa0, 0x00},                   // empty [0]
-	{0x80, 0x00},                   // empty [0] implicit primitive
-	{0x24, 0x80, 0x04, 0x01, 0x41, 0x00, 0x00}, // constructed indefinite OCTET STRING
+	{0x30, 0x00},                                // empty SEQUENCE
+	{0x31, 0x00},                                // empty SET
+	{0x04, 0x00},                                // empty OCTET STRING
+	{0x04, 0x01, 0x00},                          // 1-byte OCTET STRING
+	{0x03, 0x00},                                // BIT STRING without the unused-bits octet
+	{0x03, 0x01, 0x00},                          // empty BIT STRING
+	{0x03, 0x01, 0x07},                          // BIT STRING unused=7, no data
+	{0x03, 0x02, 0x08, 0x00},                    // invalid unused bits
+	{0x03, 0x02, 0x00, 0x04},                    // 1-byte bit string 04
+	{0x06, 0x00},                                // empty OID
+	{0x06, 0x01, 0x80},                          // bad OID
+	{0x06, 0x03, 0x2a, 0x03, 0x04},              // OID 1.2.3.4
+	{0x0c, 0x00},                                // empty UTF8String
+	{0x17, 0x00},                                // empty UTCTime
+	{0x01, 0x01, 0xff},                          // BOOLEAN true
+	{0xa0, 0x00},                                // empty [0]
+	{0x80, 0x00},                                // empty [0] implicit primitive
+	{0x24, 0x80, 0x04, 0x01, 0x41, 0x00, 0x00},  // constructed indefinite OCTET STRING
 }
 
 func ff(n int) []byte {
@@ -313,47 +313,4 @@ func mutateTree(root *node, ni, k int) []byte {
 		}
 	}
 	return t.encode()
-}
-
-// maxInteger returns the largest non-negative INTEGER value (saturated) found
-// anywhere in the TLV structure of b; used to keep attacker-chosen password
-// KDF cost parameters within sane bounds (DESIGN C13: expensive-by-design KDFs
-// are not hangs).
-func maxInteger(b []byte) uint64 {
-	var m uint64
-	var rec func(b []byte, depth int)
-	rec = func(b []byte, depth int) {
-		for len(b) > 0 {
-			n, rest, ok := parseTLV(b, depth)
-			if !ok {
-				return
-			}
-			var visit func(n *node)
-			visit = func(n *node) {
-				if len(n.tag) == 1 && n.tag[0] == 0x02 && n.children == nil {
-					c := n.content
-					if len(c) > 0 && c[0]&0x80 == 0 {
-						var v uint64
-						for _, x := range c {
-							if v > 1<<55 {
-								v = 1 << 62
-								break
-							}
-							v = v<<8 | uint64(x)
-						}
-						if v > m {
-							m = v
-						}
-					}
-				}
-				for _, ch := range n.children {
-					visit(ch)
-				}
-			}
-			visit(n)
-			b = rest
-		}
-	}
-	rec(b, 0)
-	return m
 }
